@@ -3,7 +3,7 @@ import json
 import os
 import re
 
-from .. import build, cfggen, corpus, fmt, lex, registry
+from .. import build, cfggen, corpus, fmt, lex, registry, tokoracle
 from ..common import VERIF, pmap, rng, fixed_rng
 from .c07 import HOSTS
 
@@ -122,10 +122,10 @@ def load_exemptions():
         return {}
 
 
-def judge(out, dump, space, assign, sp_names, exempt, lang):
+def judge(x, out, dump, space, assign, sp_names, exempt, lang):
     """-> (violations [(kind, rule, detail)], stats)"""
     st = dict(records=0, judged=0, unattributed=0, unmapped=0, not_adjacent=0, exempt_fusion=0, exempt_rule=0, qt=0,
-              comment_second=0, force_min_gt1=0, forced_without_hazard=0)
+              comment_second=0, force_min_gt1=0, forced_without_hazard=0, files_aligned=0)
     rules_seen = {}
     v = []
     O = dump['O']
@@ -136,11 +136,18 @@ def judge(out, dump, space, assign, sp_names, exempt, lang):
     idx = {}
     for i, c in enumerate(O):
         idx.setdefault((c.line, c.col, c.type), []).append(i)
+    # independent input gap: align the non-blank bytes of input and output (equal when only spacing changed)
+    import bisect
+    nw_in = [k for k, ch in enumerate(x) if ch not in b' \t\r\n\x0c\x0b']
+    nw_out = [k for k, ch in enumerate(out) if ch not in b' \t\r\n\x0c\x0b']
+    aligned = len(nw_in) == len(nw_out) and bytes(x[k] for k in nw_in) == bytes(out[k] for k in nw_out)
+    st['files_aligned'] = 1 if aligned else 0
     # adjacency in the input: position of each T-stage chunk -> (position, text) of the next T-stage chunk with text
     T = [c for c in dump['T'] if c.text != '' and c.type != 'NEWLINE']
     tnext = {}
     for k in range(len(T) - 1):
         tnext[(T[k].line, T[k].col)] = (T[k + 1].line, T[k + 1].col, T[k + 1].text)
+    cursor = 0
     for r in space:
         if r.file != 1:
             continue
@@ -154,10 +161,16 @@ def judge(out, dump, space, assign, sp_names, exempt, lang):
             continue
         a = idx.get((r.l1, r.c1, r.t1))
         b = idx.get((r.l2, r.c2, r.t2))
-        if not a or not b or len(a) != 1 or len(b) != 1 or b[0] <= a[0]:
+        if not a or not b:
             st['unmapped'] += 1
             continue
-        i, j = a[0], b[0]
+        # records are written in chunk-list order: several chunks with one original position (split tokens) are told apart by order
+        i = next((q for q in a if q >= cursor and O[q].text == r.text1), None)
+        j = next((q for q in b if i is not None and q > i and O[q].text == r.text2), None)
+        if i is None or j is None:
+            st['unmapped'] += 1
+            continue
+        cursor = i
         if any(O[k].text != '' or O[k].type == 'NEWLINE' for k in range(i + 1, j)):
             st['not_adjacent'] += 1
             continue
@@ -187,12 +200,17 @@ def judge(out, dump, space, assign, sp_names, exempt, lang):
             nxt = O[j + 1] if j + 1 < len(O) else None
             if nxt is None or nxt.type == 'NEWLINE':
                 continue          # a trailing comment may keep its column (space_text's comment adjustment, alignment)
-        if ca.inserted or cb.inserted:
-            ingap = None
-        elif ca.line == cb.line and ca.col_end > 0 and '\n' not in ca.text and tnext.get((ca.line, ca.col)) == (cb.line, cb.col, cb.text):
-            ingap = cb.col - ca.col_end          # the two tokens were neighbours on one input line
-        else:
-            ingap = None
+        ingap = None
+        if aligned:
+            # the bytes that stood between the same two characters in the input
+            k = bisect.bisect_left(nw_out, la[1] - 1)
+            if k + 1 < len(nw_out) and nw_out[k] == la[1] - 1 and nw_out[k + 1] == lb[0]:
+                between_in = x[nw_in[k] + 1:nw_in[k + 1]]
+                if b'\n' not in between_in and b'\r' not in between_in:
+                    ingap = len(between_in)
+        elif not (ca.inserted or cb.inserted) and ca.line == cb.line and ca.col_end > 0 and '\n' not in ca.text \
+                and tnext.get((ca.line, ca.col)) == (cb.line, cb.col, cb.text):
+            ingap = cb.col - ca.col_end          # the two tokens were neighbours on one input line (T dump)
         st['judged'] += 1
         rules_seen[R] = rules_seen.get(R, 0) + 1
         ta, tb = ca.text, cb.text
@@ -230,7 +248,9 @@ def judge(out, dump, space, assign, sp_names, exempt, lang):
                 bad = 'add-but-gap0'
         elif val == 'ignore':
             if ingap is not None and (gap > 0) != (ingap > 0):
-                if gap > 0 and hazard:
+                if gap > 0 and hazard and r.forced:
+                    # uncrustify itself flagged the pair as a re-tokenisation hazard (e.g. '>' '>' closing templates in C++ without
+                    # sp_permit_cpp11_shift) and the independent lexer agrees that the joined text is another token
                     st['exempt_fusion'] += 1
                 else:
                     bad = 'ignore-but-%s' % ('added' if gap > 0 else 'removed')
@@ -244,9 +264,53 @@ def judge(out, dump, space, assign, sp_names, exempt, lang):
                 continue
             if '\t' in ta and ca.type.startswith(('STRING', 'CHAR')):
                 R = 'after-literal-with-tab'
+            R = '%s|%s %s' % (R, tokoracle.gen(ta), tokoracle.gen(tb))
             v.append((bad, R, 'rule %s configured %s (raw %s, final %s, forced %d, min_sp %d): %r %r written with gap %d (input gap %s) at input line %d col %d' % (
                 R, val, AV.get(r.av_raw), AV.get(r.av), r.forced, r.min_sp, ta[:20], tb[:20], gap, ingap, r.l1, r.c1)))
     return v, st, rules_seen
+
+
+# small inputs dense in token pairs the corpus rarely has (deep generic closers, operators, casts, lambdas)
+EXTRA_HOSTS = {
+    'JAVA': b"""import java.util.*;
+class G<T extends Comparable<T>> {
+   Map<String, List<Set<Integer>>> m = new HashMap<String, List<Set<Integer>>>();
+   List<Map<String,List<Set<T>>>> deep=new ArrayList<Map<String,List<Set<T>>>>();
+   <U> U id(U u) { return u; }
+   int sh(int a) { return a >>> 2 >> 1 << 3; }
+   void f(int... xs) { for (int x : xs) { assert x > 0 : "neg"; } Runnable r = () -> { }; }
+   @SuppressWarnings("x") int[][] arr = new int[2][3];
+}
+""",
+    'CPP': b"""#include <vector>
+template<typename T, typename U = std::vector<std::vector<std::vector<T>>>> struct D { U u; };
+std::vector<std::vector<std::vector<int>>> v3;
+auto lam = [=](int a, int&b) mutable noexcept -> int { return a+b; };
+int (*fp)(int, char*) = nullptr;
+class C : public B, private A { public: C() : B(), a_(1) {} ~C(); C& operator=(const C &o); int operator()(int x) const; private: int a_; };
+void g() { int *p = new int[3]; delete[] p; auto q = static_cast<long>(*p) + sizeof(int) + (int)1.5; throw 1; }
+namespace n1 { namespace n2 { using T = int; } }
+enum class E : int { A = 1, B };
+""",
+    'CS': b"""using System;
+class G<T> where T : IComparable<T> {
+   Dictionary<string, List<HashSet<int>>> m = new Dictionary<string, List<HashSet<int>>>();
+   int? n = null; int P { get; set; } = 3;
+   void F(ref int a, out int b, params int[] xs) { b = a ?? 0; var l = xs?.Length; Func<int,int> f = x => x*2; }
+}
+""",
+    'D': b"""module m;
+template Foo(T) { alias Bar!(Baz!(Qux!(int))) X; }
+void f(int[] a ...) { auto x = a[1 .. $]; assert(a !is null); foreach (i, e; a) { } int y = a.length >>> 1; }
+""",
+    'C': b"""#define M(a,b) ((a)+(b))
+#define S #x
+struct s { int a:3; unsigned b; } v = { .a = 1, .b = 2 };
+int f(int a, char *p, ...) { int *q = &a; a = *q * *q + -a - --a + a++ + (a ? 1 : 2); p[0] = (char)a; goto end; end: return sizeof a + sizeof(int); }
+typedef int (*fn)(void);
+static const int arr[] = { [0] = 1, 2, };
+""",
+}
 
 
 def load_input(spec):
@@ -254,6 +318,8 @@ def load_input(spec):
         return corpus.read(spec[1])
     if spec[0] == 'host':
         return HOSTS[spec[1]]
+    if spec[0] == 'xhost':
+        return EXTRA_HOSTS[spec[1]]
     return spec[1]
 
 
@@ -272,7 +338,7 @@ def _case(t):
         return dict(cid=cid, status='hard' if (f.res.signal or f.res.cpu_timeout) else 'rejected')
     if not f.dump or not f.space:
         return dict(cid=cid, status='nohook')
-    v, st, rules_seen = judge(f.out, f.dump, f.space, a, sp_names, exempt, lang)
+    v, st, rules_seen = judge(x, f.out, f.dump, f.space, a, sp_names, exempt, lang)
     seen = set()
     out = []
     for bad, R, detail in v:
@@ -343,6 +409,9 @@ def check(ctx):
         for val in VALS:
             for rel, lang in chosen + extra:
                 tasks.append(('single:%s=%s:%s' % (n, val, rel), ('corpus', rel), lang, {n: val}))
+        for val in VALS:
+            for l in sorted(EXTRA_HOSTS):
+                tasks.append(('single:%s=%s:xhost-%s' % (n, val, l), ('xhost', l), l, {n: val}))
         if True:
             for val in VALS:
                 for h in (hosts if not quick else fr.sample(hosts, 3)):
@@ -355,11 +424,15 @@ def check(ctx):
             tasks.append(('code:%d:%s' % (ci, rel), ('corpus', rel), lang, a))
         for h in hosts:
             tasks.append(('code:%d:host-%s' % (ci, h[1]), h, h[1], a))
+        for l in sorted(EXTRA_HOSTS):
+            tasks.append(('code:%d:xhost-%s' % (ci, l), ('xhost', l), l, a))
     for k in range(150 if quick else 1500):
         jr = rng(PROP, 'joint%d' % k)
         a = {n: jr.choice(VALS) for n in sp}
         for rel, lang in jr.sample(files, 6):
             tasks.append(('joint:%d:%s' % (k, rel), ('corpus', rel), lang, a))
+        l = jr.choice(sorted(EXTRA_HOSTS))
+        tasks.append(('joint:%d:xhost-%s' % (k, l), ('xhost', l), l, a))
     ctx.rule = ('case = input (corpus file of any language or hand-written host) formatted with the SPACE and DUMP hooks on; configs: every one of '
                 'the %d IARF sp_ options singly at each of ignore/add/remove/force (exhaustive over options x values) on files where its rule '
                 'fires, a 6-config pairwise-separating family (every two options differ in >= 2 configs) and seeded joint draws; alignment, tabs and '
